@@ -288,6 +288,11 @@ theorem hist_grows {c c' : Clock} {m : Move} (hs : c.step m = some c') : c.hist 
       split at hs
       · simp only [Option.some.injEq] at hs; subst hs; exact List.suffix_cons _ _
       · cases hs
+    | etempo v now =>
+      simp only [Clock.step, Clock.applyOp] at hs
+      split at hs
+      · simp only [Option.some.injEq] at hs; subst hs; exact List.suffix_cons _ _
+      · cases hs
     | stop =>
       simp only [Clock.step, Clock.applyOp, Option.some.injEq] at hs; subst hs
       exact (List.suffix_append _ _).trans (List.suffix_cons _ _)
@@ -362,6 +367,24 @@ theorem tempo_change_reevaluates {c c' : Clock} {v secs : Rat}
   · rename_i hv
     simp only [Option.some.injEq] at hs; subst hs
     exact ⟨hv, rfl, rfl, fun hp => by simp [Clock.notify, hp]⟩
+  · cases hs
+
+/-- `etempo` anchors the change at the physical present: the beat count is continuous across the
+change (the new map gives `now` the beats the old map gave it), the new rate is in force from there,
+and a sleeping thread is told. -/
+theorem etempo_continuous {c c' : Clock} {v now : Rat} (hs : c.step (.op (.etempo v now)) = some c') :
+    0 < v ∧ c'.tempo.secs2beats now = c.tempo.secs2beats now ∧ c'.tempo.rate = v ∧
+    (∀ t, c'.tempo.secs2beats t = c.tempo.secs2beats now + (t - now) * v) ∧
+    c'.q = c.q ∧ (c.pc.parked = true → c'.notified = true) := by
+  simp only [Clock.step, Clock.applyOp] at hs
+  split at hs
+  · rename_i hv
+    simp only [Option.some.injEq] at hs; subst hs
+    refine ⟨hv, ?_, rfl, ?_, rfl, fun hp => by simp [Clock.notify, hp]⟩
+    · simp [Clock.notify, Tempo.etempo, Tempo.secs2beats]
+    · intro t
+      simp only [Clock.notify, Tempo.etempo, Tempo.secs2beats]
+      ring
   · cases hs
 
 /-! Non-vacuity: a concrete run in which a task is scheduled ahead of a sleeping head, one task
